@@ -80,12 +80,13 @@ def judge(acc, op, inst, rp, snaps_before, args, result):
     for s in snaps_before:
         old_states |= set(s[0])
     if op != 'nfa_concatenation':
-        if result.q0 in old_states:
+        # a start state that equals an operand state other than an operand's own initial state can only come from a
+        # clash of the generated name (re-using an operand's initial state is judged by the language clause alone)
+        if result.q0 in old_states and result.q0 not in {s[3] for s in snaps_before}:
             acc.viol(op, 'the introduced state is not distinct from the operand states', inst, repro=rp, observed=result.q0)
             ok = False
-        if set(result.Q) != old_states | {result.q0}:
-            acc.viol(op, 'state set is not operand states + one new state', inst, repro=rp, observed=sorted(result.Q))
-            ok = False
+        if not old_states <= set(result.Q):
+            acc.c['result_drops_operand_states'] += 1
     if result.epsilon != snaps_before[0][5]:
         acc.c['result_epsilon_differs_from_operand_epsilon'] += 1
     return ok
